@@ -2867,7 +2867,11 @@ def constants_from_enum(cls=None, module=None):
 
 @register_finalize_hook
 def validate_macros_hook(config):
-  for ref in iterate_references(config, to=get_configurable(macro)):
+  # Match references against the registered macro configurable itself, not
+  # `get_configurable(macro)`: the latter wraps it in whatever scope is active on
+  # the thread calling `finalize()`, and such a wrapper matches no reference.
+  macro_configurable = _inverse_lookup(macro).wrapper
+  for ref in iterate_references(config, to=macro_configurable):
     validate_reference(ref, require_evaluation=True)
 
 
